@@ -397,6 +397,23 @@ example : check10 [] "t" C11.w_t0 [] { C11.w_t0 with rows := [[.int 1, .int 7]] 
 example : check10 [] "t" C11.w_t0 [] { C11.w_t0 with rows := [] } [] ≠ [] := by decide
 example : check10 [] "t" { C11.w_t0 with schema := { C11.w_t0.schema with indexes := [{ name := "ix", cols := ["a"], unique := false }] } }
     [] C11.w_t0 [] ≠ [] := by decide
+/-- … and a retyped column across type families (FLOAT -> INTEGER) that kept the cast-free copy: REAL 3.7 in the INTEGER column
+    instead of `CAST(3.7 AS INTEGER)` = INTEGER 3 (storage class compared); the CAST result is accepted -/
+def w_fl : Tbl :=
+  { schema := { cols := [{ name := "id", ty := "INTEGER", aff := "Integer", nullable := false, default := none, dval := .null, pk := true },
+                         { name := "q", ty := "FLOAT", aff := "Numeric", nullable := true, default := none, dval := .null, pk := false }],
+                pk := some { kind := .pk, name := none, cols := ["id"] }, uniques := [], checks := [], fks := [], indexes := [] },
+    rows := [[.int 1, .real "3.7" 3 true]] }
+def w_fl_after (v : Value) : Tbl :=
+  { schema := { cols := [{ name := "id", ty := "INTEGER", aff := "Integer", nullable := false, default := none, dval := .null, pk := true },
+                         { name := "q", ty := "INTEGER", aff := "Integer", nullable := true, default := none, dval := .null, pk := false }],
+                pk := some { kind := .pk, name := none, cols := ["id"] }, uniques := [], checks := [], fks := [], indexes := [] },
+    rows := [[.int 1, v]] }
+def w_fl_ct : ConvTable :=
+  [("INTEGER", true, .real "3.7" 3 true, .int 3), ("INTEGER", false, .int 3, .int 3), ("INTEGER", false, .real "3.7" 3 true, .real "3.7" 3 true)]
+example : check10 w_fl_ct "t" w_fl [.alterColumn "q" none (some ("INTEGER", "Integer")) none .keep] (w_fl_after (.real "3.7" 3 true)) [] ≠ [] := by decide
+example : check10 w_fl_ct "t" w_fl [.alterColumn "q" none (some ("INTEGER", "Integer")) none .keep] (w_fl_after (.int 3)) [] = [] := by decide
+
 /-- … and a partial index that came back without its `WHERE` predicate -/
 example : check10 [] "t"
     { C11.w_t0 with schema := { C11.w_t0.schema with indexes := [{ name := "ix", cols := ["a"], unique := true, where_ := some "a > 0" }] } }
